@@ -34,6 +34,7 @@ pub struct Case {
     pub cap: Option<u16>,
     pub m: SizedPayload,
     pub enc_cap: u16,
+    pub alloc_fail: Option<u32>,
 }
 
 #[derive(Debug, Clone)]
@@ -43,6 +44,8 @@ pub struct Input {
     /// payload of the frame that must still decode after the history
     pub m: Vec<u8>,
     pub enc_cap: usize,
+    /// growable buffer only: make the n-th heap allocation inside push_byte / encode fail
+    pub alloc_fail: Option<u32>,
 }
 
 fn enc_arr<K: BufKind>(p: &[u8]) -> bool {
@@ -117,7 +120,54 @@ pub fn show_ops(ops: &[Op]) -> String {
         .join(", ")
 }
 
+/// Injected allocation failure on the growable buffer: the failure must surface as
+/// `Err(OutOfMemory)` (decoder) / `Err(OutOfMemory)` (encoder), never as a panic or abort, and the
+/// decoder must remain usable. The measured closures contain library calls only.
+fn alloc_failure_part(i: &Input, n: u32, obs: &mut Obs) -> Result<(), Fail> {
+    let mut dec = Decoder::<Vec<u8>>::new();
+    let mut stream: Vec<u8> = Vec::new();
+    for op in &i.ops {
+        if let Op::Push(b) = op {
+            stream.extend_from_slice(b);
+        }
+    }
+    stream.extend_from_slice(&ref_frame(&[0x5a; 40]));
+    let (ooms, fired) = crate::engine::alloc::with_alloc_failure(n, || {
+        let mut ooms = 0u32;
+        for &b in &stream {
+            if let Err(DecodeErr::OutOfMemory) = dec.push_byte(b) {
+                ooms += 1;
+            }
+        }
+        ooms
+    });
+    if fired {
+        obs.class("alloc-failure:injected-into-decoder");
+        ensure!(ooms >= 1, "allocation-failure-not-reported", "the {}-th heap allocation inside Decoder<Vec<u8>>::push_byte failed, but no push returned Err(OutOfMemory); stream = {}", n, hex_short(&stream, 80));
+    } else {
+        ensure!(ooms == 0, "spurious-out-of-memory", "Decoder<Vec<u8>> reported OutOfMemory {} times although no allocation failed", ooms);
+    }
+    dec.finalize();
+    let f = ref_frame(&i.m);
+    let mut evs = Vec::new();
+    drive::push_all(&mut dec, &f, 0, &mut evs);
+    ensure!(evs == vec![(f.len(), Ev::Msg(i.m.clone()))], "object-unusable-after-allocation-failure", "after an injected allocation failure the decoder yields {} for a valid frame", drive::show_pos(&evs));
+    // encoder
+    let big: Vec<u8> = i.m.iter().cycle().take(i.m.len().max(1) * 8 + 50).copied().collect();
+    let (r, fired) = crate::engine::alloc::with_alloc_failure(n % 4, || encode::<Vec<u8>>(&big).map(|v| v.len()));
+    if fired {
+        obs.class("alloc-failure:injected-into-encoder");
+        ensure!(r.is_err(), "allocation-failure-not-reported", "an allocation inside encode::<Vec<u8>> failed but it returned Ok({:?})", r);
+    } else {
+        ensure!(r.is_ok(), "spurious-out-of-memory", "encode::<Vec<u8>> failed although no allocation failed");
+    }
+    Ok(())
+}
+
 pub fn eval_input(i: &Input, obs: &mut Obs) -> Result<(), Fail> {
+    if let (Some(n), None) = (i.alloc_fail, i.cap) {
+        alloc_failure_part(i, n, obs)?;
+    }
     // (ii) call histories on the push decoder
     match i.cap {
         None => history::<VecK>(i, obs)?,
@@ -187,7 +237,7 @@ pub fn eval_input(i: &Input, obs: &mut Obs) -> Result<(), Fail> {
 
 impl Prop for C05 {
     const ID: &'static str = "C05";
-    const RULE: &'static str = "call histories over {push(G2 token chunk), finalize(), reset()} (1..8 ops; chunks contain valid, mutated and CRC-recomputed frames, escapes, partial start sequences, noise runs up to 140k incl. k*65536 +- 3) on Decoder<Vec> or Decoder<ArrayBuf<N>> (N from the dispatch set incl. 0), followed by the usability probe finalize() + frame(m) => exactly Ok(m); the concatenated bytes through decode, decode_streaming and SmlReader over slice/iterator/io::Read with step caps (at most |s|+2 results) and extra calls after the end of input; both encoders on m incl. a too-small ArrayBuf and an iterator step cap. Oracle: no panic (the 'checked' profile turns counter overflow into a panic), no abort (crash guard), step caps hold, object usable afterwards. Non-trivial: the history produced at least one error event or pushed >= 256 bytes. Distinct = distinct inputs.";
+    const RULE: &'static str = "call histories over {push(G2 token chunk), finalize(), reset()} (1..8 ops; chunks contain valid, mutated and CRC-recomputed frames, escapes, partial start sequences, noise runs up to 140k incl. k*65536 +- 3) on Decoder<Vec> or Decoder<ArrayBuf<N>> (N from the dispatch set incl. 0), followed by the usability probe finalize() + frame(m) => exactly Ok(m); the concatenated bytes through decode, decode_streaming and SmlReader over slice/iterator/io::Read with step caps (at most |s|+2 results) and extra calls after the end of input; both encoders on m incl. a too-small ArrayBuf and an iterator step cap; for the growable buffer, fault injection through the harness allocator: the n-th heap allocation inside push_byte / encode fails and must surface as Err(OutOfMemory), after which the decoder must still decode a frame. Oracle: no panic (the 'checked' profile turns counter overflow into a panic), no abort (crash guard), step caps hold, object usable afterwards. Non-trivial: the history produced at least one error event or pushed >= 256 bytes. Distinct = distinct inputs.";
     type Case = Case;
     type Input = Input;
 
@@ -203,9 +253,9 @@ impl Prop for C05 {
                 1 => Just(OpTok::Finalize),
                 1 => Just(OpTok::Reset),
             ];
-            (vec(op, 1..8), prop::option::weighted(0.6, any::<u16>()), moderate_payload(), any::<u16>())
+            (vec(op, 1..8), prop::option::weighted(0.6, any::<u16>()), moderate_payload(), any::<u16>(), prop::option::weighted(0.25, 0u32..12))
         })
-        .prop_map(|(ops, cap, m, enc_cap)| Case { ops, cap, m, enc_cap })
+        .prop_map(|(ops, cap, m, enc_cap, alloc_fail)| Case { ops, cap, m, enc_cap, alloc_fail })
         .boxed()
     }
 
@@ -219,7 +269,7 @@ impl Prop for C05 {
                 OpTok::Reset => Op::Reset,
             })
             .collect();
-        Input { ops, cap: c.cap.map(|x| CAPS[pick(x, CAPS.len())]), m: c.m.bytes(), enc_cap: CAPS[pick(c.enc_cap, 40)] }
+        Input { ops, cap: c.cap.map(|x| CAPS[pick(x, CAPS.len())]), m: c.m.bytes(), enc_cap: CAPS[pick(c.enc_cap, 40)], alloc_fail: if c.cap.is_none() { c.alloc_fail } else { None } }
     }
 
     fn eval(i: &Input, obs: &mut Obs) -> Result<(), Fail> {
@@ -230,6 +280,7 @@ impl Prop for C05 {
         let mut kv = Kv::new();
         kv.put("cap", i.cap.map(|c| c.to_string()).unwrap_or_else(|| "none".into()));
         kv.put_u("enc_cap", i.enc_cap as u64).put_b("m", &i.m);
+        kv.put("alloc_fail", i.alloc_fail.map(|n| n.to_string()).unwrap_or_else(|| "none".into()));
         for op in &i.ops {
             match op {
                 Op::Push(b) => kv.put("op", format!("push:{}", hex_rle(b))),
@@ -259,7 +310,11 @@ impl Prop for C05 {
                 s => Op::Push(unhex_rle(s.strip_prefix("push:").ok_or("bad op")?)?),
             });
         }
-        Ok(Input { ops, cap, m: kv.get_b("m")?, enc_cap })
+        let alloc_fail = match kv.get_opt("alloc_fail").unwrap_or("none") {
+            "none" => None,
+            s => Some(s.parse::<u32>().map_err(|e| e.to_string())?),
+        };
+        Ok(Input { ops, cap, m: kv.get_b("m")?, enc_cap, alloc_fail })
     }
 
     fn exhaustive_desc(tier: Tier) -> String {
@@ -287,7 +342,7 @@ impl Prop for C05 {
                         });
                     }
                     let cap = [None, Some(0usize), Some(4), Some(64)][(g % 4) as usize];
-                    if !f(&Input { ops, cap, m: vec![0xa5, 0x00], enc_cap: 16 }) {
+                    if !f(&Input { ops, cap, m: vec![0xa5, 0x00], enc_cap: 16, alloc_fail: None }) {
                         return;
                     }
                 }
